@@ -185,7 +185,7 @@ func (f *Family) Cert(pos int, s Shape) *x509.Certificate {
 }
 
 // Chain assembles a chain from per-position shapes (len(shapes) == f.Len; the
-// root's shape only matters for NoCRLSign).
+// root's shape only keeps NoCRLSign and its pointers).
 func (f *Family) Chain(shapes []Shape) []*x509.Certificate {
 	out := make([]*x509.Certificate, f.Len)
 	for i := range out {
@@ -194,7 +194,9 @@ func (f *Family) Chain(shapes []Shape) []*x509.Certificate {
 			s = shapes[i]
 		}
 		if i == f.Len-1 {
-			s = Shape{NoCRLSign: s.NoCRLSign}
+			// a root may advertise responders and distribution points; nothing
+			// serves them (whoever asks is seen in the network log)
+			s = Shape{NoCRLSign: s.NoCRLSign, OCSP: s.OCSP, CRL: s.CRL}
 		}
 		out[i] = f.Cert(i, s)
 	}
